@@ -27,7 +27,16 @@ pub struct C09;
 
 #[derive(Serialize, Deserialize, Clone, Debug, PartialEq)]
 pub enum Op {
-    Learn { epochs: i32, with_val: bool },
+    /// `tol`: early-stopping tolerance handed to learn with the validation data
+    /// (`None` = a tolerance larger than any budget, i.e. never stops early)
+    Learn {
+        epochs: i32,
+        with_val: bool,
+        #[serde(default)]
+        tol: Option<i32>,
+        #[serde(default)]
+        print: Option<i32>,
+    },
     Validate,
     Predict,
     PredictBatch,
@@ -81,14 +90,14 @@ fn probe_inputs(r: &Ready) -> Vec<&tensor::Tensor> {
 fn apply(r: &mut Ready, case: &Case, op: &Op, ctx: &mut Ctx, step: &mut Step) {
     ctx.op();
     match op {
-        Op::Learn { epochs, with_val } => {
+        Op::Learn { epochs, with_val, tol, print } => {
             let xr: Vec<&tensor::Tensor> = r.xs.iter().collect();
             let yr: Vec<&tensor::Tensor> = r.ys.iter().collect();
             let vxr: Vec<&tensor::Tensor> = r.vx.iter().collect();
             let vyr: Vec<&tensor::Tensor> = r.vy.iter().collect();
-            // a tolerance larger than the budget: early stopping is C13's business
-            let validation = if *with_val { Some((&vxr, &vyr, 1000)) } else { None };
-            let (_, vl, va) = r.net.learn(&xr, &yr, validation, case.batch, *epochs, None);
+            // early stopping itself is C13's business; here it only decides how learn exits
+            let validation = if *with_val { Some((&vxr, &vyr, tol.unwrap_or(1000))) } else { None };
+            let (_, vl, va) = r.net.learn(&xr, &yr, validation, case.batch, *epochs, *print);
             step.val_loss = vl;
             step.val_acc = va;
             if *with_val {
@@ -133,7 +142,7 @@ fn params_after_prefix(case: &Case, i: usize, k: i32, ctx: &mut Ctx) -> Vec<Vec<
     for op in &case.ops[..i] {
         apply(&mut r, case, op, ctx, &mut Step::default());
     }
-    apply(&mut r, case, &Op::Learn { epochs: k, with_val: false }, ctx, &mut Step::default());
+    apply(&mut r, case, &Op::Learn { epochs: k, with_val: false, tol: None, print: None }, ctx, &mut Step::default());
     parameters(&r.net)
 }
 
@@ -180,6 +189,7 @@ impl Property for C09 {
             "learn_then_learn",
             "validate_outside_training",
             "epochs_ge_2_with_validation",
+            "early_stop_fired",
         ]
     }
 
@@ -206,9 +216,15 @@ impl Property for C09 {
         let mut ops = Vec::new();
         let len = rng.range(1, 5);
         for _ in 0..len {
+            let print = if rng.chance(0.3) { Some(rng.pick(&[1i32, 2, 3, 5])) } else { None };
             ops.push(match rng.below(7) {
-                0 | 1 | 2 => Op::Learn { epochs: rng.range(1, 4) as i32, with_val: true },
-                3 => Op::Learn { epochs: rng.range(1, 3) as i32, with_val: false },
+                0 | 1 | 2 => Op::Learn {
+                    epochs: rng.range(1, 6) as i32,
+                    with_val: true,
+                    tol: if rng.chance(0.5) { Some(rng.range(1, 3) as i32) } else { None },
+                    print,
+                },
+                3 => Op::Learn { epochs: rng.range(1, 3) as i32, with_val: false, tol: None, print },
                 4 => Op::Validate,
                 5 => Op::Predict,
                 _ => Op::PredictBatch,
@@ -216,7 +232,7 @@ impl Property for C09 {
         }
         if !ops.iter().any(|o| matches!(o, Op::Learn { .. })) {
             let at = rng.below(ops.len());
-            ops[at] = Op::Learn { epochs: rng.range(1, 4) as i32, with_val: true };
+            ops[at] = Op::Learn { epochs: rng.range(1, 4) as i32, with_val: true, tol: None, print: None };
         }
         let (clock, _) = draw_clock(rng);
         let env = draw_env(rng, clock, true);
@@ -249,7 +265,8 @@ impl Property for C09 {
         stats.probe("dropout_in_feedback", in_fb);
         let learns: Vec<usize> = case.ops.iter().enumerate().filter(|(_, o)| matches!(o, Op::Learn { .. })).map(|(i, _)| i).collect();
         stats.probe("learn_with_validation", case.ops.iter().any(|o| matches!(o, Op::Learn { with_val: true, .. })));
-        stats.probe("epochs_ge_2_with_validation", case.ops.iter().any(|o| matches!(o, Op::Learn { with_val: true, epochs } if *epochs >= 2)));
+        stats.probe("epochs_ge_2_with_validation", case.ops.iter().any(|o| matches!(o, Op::Learn { with_val: true, epochs, .. } if *epochs >= 2)));
+        stats.probe("early_stop_fired", false);
         stats.probe("learn_then_learn", learns.len() >= 2);
         stats.probe(
             "validate_outside_training",
@@ -324,7 +341,10 @@ impl Property for C09 {
                 Err(e) => return Outcome::HarnessError(format!("dropout-free twin panics: {}", e)),
             }
             // (c) per-epoch validation metrics, (d) validate right after learn
-            if let Op::Learn { with_val: true, .. } = case.ops[i] {
+            if let Op::Learn { with_val: true, epochs, .. } = case.ops[i] {
+                if (step.val_loss.len() as i32) < epochs {
+                    stats.probe("early_stop_fired", true);
+                }
                 if step.val_loss.len() != step.val_acc.len() {
                     return Outcome::Violation(Violation {
                         class: "history_lengths".into(),
@@ -401,13 +421,23 @@ impl Property for C09 {
             }
         }
         for (i, op) in case.ops.iter().enumerate() {
-            if let Op::Learn { epochs, with_val } = op {
+            if let Op::Learn { epochs, with_val, tol, print } = op {
                 if *epochs > 1 {
                     let mut c = lenient(case);
-                    c.ops[i] = Op::Learn { epochs: 1, with_val: *with_val };
+                    c.ops[i] = Op::Learn { epochs: 1, with_val: *with_val, tol: *tol, print: *print };
                     out.push(c);
                     let mut c = lenient(case);
-                    c.ops[i] = Op::Learn { epochs: epochs - 1, with_val: *with_val };
+                    c.ops[i] = Op::Learn { epochs: epochs - 1, with_val: *with_val, tol: *tol, print: *print };
+                    out.push(c);
+                }
+                if print.is_some() {
+                    let mut c = lenient(case);
+                    c.ops[i] = Op::Learn { epochs: *epochs, with_val: *with_val, tol: *tol, print: None };
+                    out.push(c);
+                }
+                if tol.is_some() {
+                    let mut c = lenient(case);
+                    c.ops[i] = Op::Learn { epochs: *epochs, with_val: *with_val, tol: None, print: *print };
                     out.push(c);
                 }
             }
